@@ -201,11 +201,17 @@ def singletonRelease {α} (s : SingSt α) : Option (SingSt α × α) :=
 
 /-! ## PassthroughSingletonHook<T> -/
 
-/-- returns (nontrivial, queue, to_release) -/
-def passthroughAuto {α} (q : List α) (rel : Option α) : Bool × List α × Option α :=
+/-- `autonomous_decision` (after the F36 fix: the hook keeps `last_released` like `SingletonHook` and
+re-releases it unchanged when the fold produced nothing new); no driver call is made.
+Returns (nontrivial, queue, to_release = (data, is new)) -/
+def passthroughAuto {α} (q : List α) (last : Option α) (force : Bool) : Option (Bool × List α × (α × Bool)) :=
   match q.getLast? with
-  | some item => (true, [], some item)
-  | none => (false, q, rel)
+  | some item => some (true, [], (item, true))
+  | none =>
+    if force then none   -- panic!("Cannot make nontrivial decision when there is no input")
+    else match last with
+      | some l => some (false, q, (l, false))
+      | none => none     -- panic!("No input and no last released item to re-release")
 
 /-! ## KeyedSingletonHook<K, V> -/
 
@@ -429,7 +435,7 @@ inductive Hook (κ α : Type) where
   | keyedTotal (m : KMap κ α) (rel : Option (List (κ × α)))
   | keyedNo (m : KMap κ α) (rel : Option (List (κ × α)))
   | singleton (s : SingSt α)
-  | passthrough (q : List α) (rel : Option α)
+  | passthrough (q : List α) (rel : Option (α × Bool)) (last : Option α)
   | keyedSingleton (m : KMap κ α) (rel : Option (List (κ × α × Bool))) (last : List (κ × α))
   | tlOrder (q : List α) (rel : Option (List α))
   | tlFold (q : List α) (rel : Option (List α))
@@ -450,7 +456,7 @@ def Hook.cur : Hook κ α → Option Bool
   | .keyedTotal _ r => relNonempty r
   | .keyedNo _ r => relNonempty r
   | .singleton s => s.rel.map (fun t => t.2)
-  | .passthrough _ r => r.map (fun _ => true)
+  | .passthrough _ r _ => r.map (fun t => t.2)
   | .keyedSingleton _ r _ => r.map (fun v => v.any (fun t => t.2.2))
   | .tlOrder _ r => relNonempty r
   | .tlFold _ r => relNonempty r
@@ -466,7 +472,7 @@ def Hook.canNT : Hook κ α → Bool
   | .keyedTotal m _ => !kmapAllEmpty m
   | .keyedNo m _ => !kmapAllEmpty m
   | .singleton s => !s.q.isEmpty
-  | .passthrough q _ => !q.isEmpty
+  | .passthrough q _ _ => !q.isEmpty
   | .keyedSingleton m _ _ => !kmapAllEmpty m
   | .tlOrder q _ => !q.isEmpty
   | .tlFold q _ => !q.isEmpty
@@ -475,9 +481,10 @@ def Hook.canNT : Hook κ α → Bool
   | .tlMerge q1 q2 _ => !q1.isEmpty || !q2.isEmpty
   | .tlKeyedMerge m1 m2 _ => !kmapAllEmpty m1 || !kmapAllEmpty m2
 
-/-- `is_ready` (default `true`; overridden by `SingletonHook`) -/
+/-- `is_ready` (default `true`; overridden by `SingletonHook` and `PassthroughSingletonHook`) -/
 def Hook.ready : Hook κ α → Bool
   | .singleton s => !s.q.isEmpty || s.last.isSome
+  | .passthrough q _ last => !q.isEmpty || last.isSome
   | _ => true
 
 /-- `autonomous_decision(driver, force_nontrivial)` -/
@@ -488,9 +495,8 @@ def Hook.auto [DecidableEq κ] (h : Hook κ α) (d : Drv) (force : Bool) : Optio
   | .keyedTotal m _ => (keyedTotalAuto m d force).map fun (r, m', nt, d') => (nt, .keyedTotal m' (some r), d')
   | .keyedNo m _ => (keyedNoAuto m d force).map fun (r, m', nt, d') => (nt, .keyedNo m' (some r), d')
   | .singleton s => (singletonAuto s d force).map fun (nt, s', d') => (nt, .singleton s', d')
-  | .passthrough q r =>
-    let (nt, q', r') := passthroughAuto q r
-    some (nt, .passthrough q' r', d)
+  | .passthrough q _ last =>
+    (passthroughAuto q last force).map fun (nt, q', r') => (nt, .passthrough q' (some r') last, d)
   | .keyedSingleton m _ last =>
     (keyedSingLoop m (nonemptyKeyCount m) force last d).map fun (r, m', last', nt, d') =>
       (nt, .keyedSingleton m' (some r) last', d')
@@ -511,7 +517,7 @@ def Hook.release (h : Hook κ α) : Option (Hook κ α × List (Msg κ α)) :=
   | .keyedTotal m r => r.map fun v => (.keyedTotal m none, v.map fun e => .kv e.1 e.2)
   | .keyedNo m r => r.map fun v => (.keyedNo m none, v.map fun e => .kv e.1 e.2)
   | .singleton s => (singletonRelease s).map fun (s', x) => (.singleton s', [.item x])
-  | .passthrough q r => r.map fun x => (.passthrough q none, [.item x])
+  | .passthrough q r _ => r.map fun x => (.passthrough q none (some x.1), [.item x.1])
   | .keyedSingleton m r last => r.map fun v => (.keyedSingleton m none last, v.map fun e => .kv e.1 e.2.1)
   | .tlOrder q r => r.map fun v => (.tlOrder q none, v.map .item)
   | .tlFold q r => r.map fun v => (.tlFold q none, [.batch v])
